@@ -165,6 +165,13 @@ func runSocket(c routeCase) (fail *rp.Fail, skipped bool) {
 			return []farm.Action{{Delay: timeoutMs * 7 / 10 * time.Millisecond, Data: reply(req)}}
 		case 2, 3:
 			return nil
+		case 4: // first a well-formed reply of ANOTHER operation from the same controller (the late reply to an earlier call), then the right one
+			stale := reply(req)
+			if stale != nil {
+				stale = append([]byte(nil), stale...)
+				stale[1] = map[bool]byte{true: 0x32, false: 0x20}[stale[1] == 0x20]
+			}
+			return []farm.Action{{Data: stale}, {Delay: 3 * time.Millisecond, Data: reply(req)}}
 		}
 		return []farm.Action{{Data: reply(req)}}
 	}
@@ -281,7 +288,7 @@ func runSocket(c routeCase) (fail *rp.Fail, skipped bool) {
 		return nil, true // no route for the limited broadcast in this sandbox
 	}
 	time.Sleep(30 * time.Millisecond) // grace period for stray duplicates
-	if c.Behaviour != 0 {
+	if c.Behaviour != 0 && c.Behaviour != 4 {
 		time.Sleep(timeoutMs * time.Millisecond / 2) // a retransmission scheduled for later would still arrive now
 	}
 	wantMethod, _ := cfg.Route(c.Call.Call.Serial, discovery)
@@ -392,7 +399,7 @@ func check(c routeCase) *rp.Fail {
 	if len(c.More) > 0 {
 		ev.Class(c.Layer+"/further-calls-on-the-same-client", int64(len(c.More)))
 	}
-	ev.Class(c.Layer+"/controller-"+[]string{"answers-at-once", "answers-late", "silent", "port-closed-refuses"}[c.Behaviour], 1)
+	ev.Class(c.Layer+"/controller-"+[]string{"answers-at-once", "answers-late", "silent", "port-closed-refuses", "stale-reply-first"}[c.Behaviour], 1)
 	if c.Cfg.Debug {
 		ev.Class(c.Layer+"/client-with-debug-output", 1)
 	}
@@ -428,6 +435,10 @@ func genCase(layer string) func(t *rapid.T) routeCase {
 		case 3:
 			if layer == "socket" {
 				c.Behaviour = 3
+			}
+		case 4:
+			if layer == "socket" {
+				c.Behaviour = 4
 			}
 		}
 		c.Cfg.Debug = gen.Debug(t, "debug")
@@ -478,6 +489,9 @@ func genCase(layer string) func(t *rapid.T) routeCase {
 			c.Cfg.Devices = append(c.Cfg.Devices, d)
 		}
 		op := gen.Op(t, true)
+		if rapid.IntRange(0, 9).Draw(t, "set.address") == 0 {
+			op = "SetAddress" // the one operation without a reply has code paths of its own on every transport
+		}
 		c.Call = gen.Call(t, op)
 		if op != "GetDevices" && len(serials) > 0 && rapid.IntRange(0, 4).Draw(t, "configured") != 0 {
 			c.Call.Call.Serial = serials[rapid.IntRange(0, len(serials)-1).Draw(t, "which")]
